@@ -4,5 +4,5 @@ CHECK_DEADLOCK FALSE
 INVARIANT LawHolds
 CONSTANTS
   Mode = "str"
-  Bytes <- BytesT
-  MaxLen = 3
+  Bytes <- BytesT4
+  MaxLen = 4
